@@ -1,2 +1,63 @@
-/-! line-protocol driver for property C05 (stub) -/
-def main (_args : List String) : IO Unit := pure ()
+import MirVerif.Model.AbiX64
+/-! line-protocol driver for property C05.
+
+args:  `ldff=0|1 ldgen=0|1 blkxmm=0|1 alblk=0|1`  (which defects are repaired; default all 0 = pinned tree)
+stdin: one prototype per line   `r:<t,t,…> a:<t,t,…> v:<t,…>|!`
+       (`v:!` = not variadic, `v:` = variadic with empty tail; the tail is placed after the named args)
+stdout per line:
+  `SYSV <locs> | stk=.. xmm=.. ; FF <locs> | stk=.. xmm=.. al=8 ; GEN <locs> | stk=.. xmm=.. al=.. ; RES sysv=.. ff=.. gen=.. ; WS=0|1`
+-/
+open MirVerif.AbiX64
+
+def parseList {α} (p : String → Option α) (s : String) : Option (List α) :=
+  if s.isEmpty then some [] else (s.splitOn ",").mapM p
+
+def resStr : Option (List RLoc) → String
+  | none => "err"
+  | some [] => "-"
+  | some ls => ",".intercalate (ls.map RLoc.str)
+
+def field (pre : String) (toks : List String) : Option String :=
+  (toks.find? (·.startsWith pre)).map (fun t => (t.drop pre.length).toString)
+
+def hexToNat (s : String) : Nat :=
+  s.foldl (fun acc c =>
+    let d := if c.isDigit then c.toNat - 48 else if 'a' ≤ c ∧ c ≤ 'f' then c.toNat - 87 else 0
+    acc * 16 + d) 0
+
+def natToHex (n : Nat) : String := String.ofList (Nat.toDigits 16 n)
+
+def answer (cfg : Cfg) (line : String) : String :=
+  let toks := (line.splitOn " ").filter (· ≠ "")
+  -- `x:<type> <hex>` : the 64-bit register image the receiver sees for a value passed as <type>
+  if line.startsWith "x:" then
+    match toks with
+    | [t, v] =>
+      match parseRes (t.drop 2).toString with
+      | some ty => natToHex (passInt ty (hexToNat v))
+      | none => "ERR type"
+    | _ => "ERR x"
+  else
+  match field "r:" toks, field "a:" toks, field "v:" toks with
+  | some r, some a, some v =>
+    let variadic := v ≠ "!"
+    match parseList parseRes r, parseList parseArg a, parseList parseArg (if variadic then v else "") with
+    | some rs, some as, some vs =>
+      let all := as ++ vs
+      let ws := if all.all (fun x => decide x.WellSized) then "1" else "0"
+      let gal := if variadic then toString (genAl cfg all) else "-"
+      s!"SYSV {(sysvPlace all).str} ; FF {(ffPlace cfg all).str} al={ffAl} ; GEN {(genPlace cfg all).str} al={gal} ; RES sysv={resStr (sysvRes rs)} ff={resStr (ffRes rs)} gen={resStr (genRes rs)} ; WS={ws}"
+    | _, _, _ => "ERR parse"
+  | _, _, _ => "ERR fields"
+
+partial def loop (h : IO.FS.Stream) (cfg : Cfg) : IO Unit := do
+  let line ← h.getLine
+  if line.isEmpty then return ()
+  IO.println (answer cfg line.trimAscii.toString)
+  loop h cfg
+
+def flag (args : List String) (name : String) : Bool := args.contains (name ++ "=1")
+
+def main (args : List String) : IO Unit := do
+  let cfg : Cfg := ⟨flag args "ldff", flag args "ldgen", flag args "blkxmm", flag args "alblk"⟩
+  loop (← IO.getStdin) cfg
